@@ -270,7 +270,9 @@ def _named_sets(m, ex, existing=()):
         # the existing story is not named by the message
         return set(), pay - set(existing), set()
     if k in ('StoryReplace', 'EAStoryReplace'):
-        return ({tgt} if tgt else set()), pay | ({tgt} if tgt else set()), set()
+        # a carried story whose ID another story already has names that story too (whether it is
+        # kept, skipped or doubled is not prescribed): the frame is what the message does not name
+        return ({tgt} if tgt else set()) | (pay & set(existing)), pay | ({tgt} if tgt else set()), set()
     if k == 'StorySend':
         sid = m.story_ref[1] if m.story_ref[0] == 'id' else None
         return ({sid} if sid else set()), ({sid} if sid else set()) | pay, set()
